@@ -84,7 +84,16 @@ TREES = {
     'abstract': "pg.Dict(p=P.partial(b=pg.oneof([1, 2])), "
                 "q=cbl([Q.partial(z=P(a=1)), 7]), s=B(u=[1, 2]))",
     'deep': "B(u=cbl([P(a=1, k=dict(n=cbd(x=B(t=1)))), 5, 3]))",
+    # Roots of every kind x listener configuration.  'abstract' has a Dict
+    # root without callback, 'conts' one with; the trees below add a List root
+    # without / with callback and an Object root without any handler, with no
+    # listener anywhere ('bare-*': nobody to notify, facts must still be fresh)
+    # or only below the root.
+    'bare-list': "pg.List([1, Q(z=[2, 3], r=1), pg.Dict(d=4)])",
+    'bare-obj': "Q(z=pg.Dict(d=[1, Q.partial()], e=cbl([2])), r=1)",
+    'cb-list': "cbl([1, pg.Dict(d=[2, B()]), 3])",
 }
+SMALL_TREES = ('bare-list', 'bare-obj', 'cb-list')
 _CODE = {}
 
 
@@ -363,6 +372,7 @@ def dict_ops(at, n, r, nvals):
           [((k,), 'SET'), ((newkey,), 'SET')], variant='dict-2')
       add('dict.rebind/dict-2', f'n.rebind({{{k!r}: {a}, {newkey!r}: {b}}})',
           [((k,), 'SET'), ((newkey,), 'SET')])
+  _combined_arg_ops(add, n, r, keys, newkey, 'dict', 'n')
   add('dict.update', 'n.update({})', [], nochange=True, variant='empty')
   add('dict.pop/absent-key-default', "n.pop('nope', None)", [], nochange=True)
   if keys and not has_spec:
@@ -416,12 +426,60 @@ def object_ops(at, n, r, nvals):
     b = _vals(r, 1, _field_int_only(n, k2))[0]
     add('object.rebind/kwargs-2', f'n.rebind({k1}={a}, {k2}={b})',
         [((k1,), 'SET'), ((k2,), 'SET')])
+  _combined_arg_ops(add, n, r, keys, None, 'object', 'n')
   _batch_ops(add, n, r, 'object')
   ints = _int_leaves(n)
   if ints:
     add('object.rebind/fn', 'n.rebind(lambda k, v: 77 if isinstance(v, int) '
         'and not isinstance(v, bool) else v)', [(p, 'SET') for p in ints])
   return ops
+
+
+def _combined_arg_ops(add, n, r, keys, newkey, kind, recv):
+  """One call that names its changes through SEVERAL argument channels.
+
+  update(mapping, **kwargs), update(pairs, **kwargs), rebind(dict, **kwargs):
+  one call = one event per receiver carrying all the locations, whatever the
+  channel a location was named through; a key named through both channels is
+  one location (the keyword wins, as for dict.update).
+  """
+  idents = [k for k in keys if isinstance(k, str) and k.isidentifier()]
+  if not idents:
+    return
+  k1 = idents[0]
+  k2 = newkey if newkey else (idents[-1] if len(idents) > 1 else None)
+  val = lambda k: _vals(r, 1, _field_int_only(n, k) if k in keys else False)[0]
+  def typed(k):
+    f = n.sym_attr_field(k) if k in keys else None
+    if f is not None and isinstance(f.value, pg.typing.Dict):
+      return "{{'m': {i}}}".format(i=next(_counter))
+    if f is not None and isinstance(f.value, pg.typing.List):
+      return '[{i}]'.format(i=next(_counter))
+    return val(k)
+  upd = 'n.update' if kind == 'dict' else 'n.sym_init_args.update'
+  pre = 'dict.update' if kind == 'dict' else 'object.sym_init_args.update'
+  if k2 is not None:
+    a, b = typed(k1), typed(k2)
+    both = [((k1,), 'SET'), ((k2,), 'SET')]
+    add(f'{pre}/mapping+kwargs', f'{upd}({{{k1!r}: {a}}}, {k2}={b})', both)
+    add(f'{pre}/pairs+kwargs', f'{upd}([({k2!r}, {b})], {k1}={a})', both)
+    add(f'{kind}.rebind/dict+kwargs', f'n.rebind({{{k1!r}: {a}}}, {k2}={b})',
+        both)
+    add(f'{kind}.rebind/dict+kwargs-no-notify-parents',
+        f'n.rebind({{{k2!r}: {b}}}, {k1}={a}, notify_parents=False)', both,
+        notify_parents=False)
+  a, b = typed(k1), typed(k1)
+  if a != b:
+    add(f'{pre}/mapping+kwargs-same-key', f'{upd}({{{k1!r}: {a}}}, {k1}={b})',
+        [((k1,), 'SET')])
+  # A nested location named by path next to a direct one named by keyword.
+  deep = [rel for rel in _descendant_slots(n) if len(rel) >= 2 and
+          rel[0] != k1 and all(isinstance(x, (str, int)) for x in rel)]
+  if deep:
+    rel = deep[0] if r is None else r.choice(deep)
+    add(f'{kind}.rebind/path-dict+kwargs',
+        f'n.rebind({{{pstr(rel)!r}: {next(_counter)}}}, {k1}={typed(k1)})',
+        [(rel, 'SET'), ((k1,), 'SET')])
 
 
 def _batch_ops(add, n, r, kind):
@@ -478,6 +536,10 @@ def list_ops(at, n, r, nvals):
   add('list.extend', f'n.extend([{a}, {b}])',
       [((ln,), 'SET'), ((ln + 1,), 'SET')])
   add('list.extend/empty', 'n.extend([])', [], nochange=True)
+  add('list.extend/generator', f'n.extend(x for x in ({a}, {b}))',
+      [((ln,), 'SET'), ((ln + 1,), 'SET')])
+  add('list.iadd/tuple', f'n += ({a}, {b})',
+      [((ln,), 'SET'), ((ln + 1,), 'SET')])
   add('list.iadd', f'n += [{a}, {b}]', [((ln,), 'SET'), ((ln + 1,), 'SET')])
   add('list.rebind/append', f'n.rebind({{{ln + 3}: {v()}}})',
       [((ln,), 'SET')])
@@ -512,6 +574,8 @@ def list_ops(at, n, r, nvals):
     add('list.setitem/slice-grow', f'n[0:1] = [{a}, {b}]',
         [((0,), 'SET'), ((1,), 'INS')])
     add('list.setitem/slice-same-size', f'n[0:1] = [{a}]', [((0,), 'SET')])
+    add('list.setitem/slice-insert-only', f'n[1:1] = [{a}, {b}]',
+        [((1,), 'INS'), ((2,), 'INS')])
     add('list.reverse', 'n.reverse()',
         [((i,), 'SET') for i in range(ln)
          if n.sym_getattr(i) is not n.sym_getattr(ln - 1 - i)],
@@ -905,11 +969,13 @@ def _warm(root):
 
 def drv_single_ops(tier, seed):
   rec = Recorder(
-      'C09', 'every mutator once on every node of 4 trees: events '
+      'C09', 'every mutator once on every node of 7 trees: events '
       '(exactly-once, bottom-up, exact payload, nobody else) + derived facts '
       'vs deserialized copy',
-      scope='4 trees (objects with _on_change/_on_bound overrides, Dict/List '
-      'with callbacks, partial + pure-symbolic parts, depth<=6) x every '
+      scope='7 trees (objects with _on_change/_on_bound overrides, Dict/List '
+      'with callbacks, partial + pure-symbolic parts, depth<=6; roots: Object '
+      'with/without handlers, Dict and List with/without callback; 2 trees '
+      'without any listener) x every '
       'symbolic node (facts compared at every ancestor-or-self of a changed '
       'location in quick, at every node in thorough) x every list/dict/object mutator (incl. batched and '
       'functional rebind, slices, in-place operators, update/setdefault/pop/'
@@ -948,9 +1014,10 @@ def drv_histories(tier, seed):
   rec = Recorder(
       'C09', 'histories of mutations; events + derived facts checked after '
       'every step (all facts queried before each step)',
-      scope='4 trees; quick: 45 seeded random histories of length<=5 per tree '
+      scope='7 trees; quick: 45 seeded random histories of length<=5 per tree '
       '+ all 2-step histories whose first step is one of 10 sampled ops and '
-      'second one of 25 sampled; thorough: 600 random histories of length<=7 '
+      'second one of 25 sampled (20 / 5 x 12 for the 3 small root-kind trees); '
+      'thorough: 600 random histories of length<=7 '
       '+ first step from 60 sampled x second from 80 sampled')
   r = rng(seed, 'c09-hist')
   ALL_NODES[0] = tier != 'quick'
@@ -970,7 +1037,11 @@ def drv_histories(tier, seed):
         continue
       return op
     return op
+  full = (n_rand, n_first, n_second)
   for tree in TREES:
+    n_rand, n_first, n_second = full
+    if tree in SMALL_TREES and tier == 'quick':
+      n_rand, n_first, n_second = 20, 5, 12
     for h in range(n_rand):
       root = build(tree)
       _warm(root)
@@ -1012,6 +1083,256 @@ def drv_histories(tier, seed):
           continue
         run_step(rec, tree, root, [op_src_lines(f, 'normal')], s, 'normal',
                  'pair')
+  return rec.result()
+
+
+# --------------------------------------------------------------------------
+# Receiver classes: what a receiver gets must not depend on which OTHER
+# classes (bases, siblings, subclasses) were notified earlier in the process.
+# --------------------------------------------------------------------------
+
+HIER_HEAD = '''import pyglove as pg
+T=pg.typing;LOG=[];L={}
+C=lambda s,u:LOG.append(('c',L.get(id(s),'?'),{str(k):(f.old_value,f.new_value) for k,f in u.items()}))
+OC='def _on_change(s,u):C(s,u);super(K,s)._on_change(u)'
+'''
+# name -> (dependencies, source, what it observes, role for the case id)
+HIER = {
+    'Plain': ((), '''class Plain(pg.Object):
+  x:T.Int(default=0);c:T.Dict([('v',T.Int(default=0))]);o:T.Any(default=None)
+''', '', 'plain'),
+    'Tracked': (('Plain',), '''class Tracked(Plain):exec(OC.replace('K','Tracked'))
+''', 'c', 'on_change-override-below-plain-class'),
+    'Heir': (('Tracked',), '''class Heir(Tracked):pass
+''', 'c', 'inherited-on_change-override'),
+    'Quiet': (('Plain',), '''class Quiet(Plain):pass
+''', '', 'plain-sibling-of-override'),
+    'Bound': (('Plain',), '''class Bound(Plain):
+  def _on_bound(s):LOG.append(('b',L.get(id(s),'?')))
+''', 'b', 'on_bound-only'),
+    'Both': (('Bound',), '''class Both(Bound):exec(OC.replace('K','Both'))
+''', 'cb', 'on_change-override-below-on_bound-only-class'),
+    'Mix': ((), '''class Mix:exec(OC.replace('K','Mix'))
+''', None, None),
+    'Mixed': (('Mix', 'Plain'), '''class Mixed(Mix,Plain):pass
+''', 'c', 'on_change-from-mixin'),
+    'Fn': ((), '''@pg.functor([('x',T.Int()),('c',T.Dict([('v',T.Int(default=0))])),('o',T.Any(default=None))])
+def Fn(x,c,o=None):return x
+''', '', 'functor'),
+    'TFn': (('Fn',), '''class TFn(Fn):exec(OC.replace('K','TFn'))
+''', 'c', 'on_change-override-below-functor'),
+}
+HIER_CLASSES = [k for k, v in HIER.items() if v[3]]
+HIER_TAIL = '''def mk(K,n,**kw):
+  m=len(LOG);t=K(x=1,c=dict(v=1),**kw);L[id(t)]=n;del LOG[m:];return t
+def inroot(t,n):
+  m=len(LOG);r=pg.Dict(t=t,onchange_callback=lambda u:C(r,u));L[id(r)]=n;del LOG[m:];return r
+'''
+
+
+def _hier_src(names=None):
+  need = []
+
+  def want(k):
+    if k not in need:
+      for d in HIER[k][0]:
+        want(d)
+      need.append(k)
+  for k in (names or HIER):
+    want(k)
+  return HIER_HEAD + ''.join(HIER[k][1] for k in HIER if k in need) + HIER_TAIL
+
+
+def _hier_events(chain, changes):
+  """Expected deliveries of one call, from the class table and the operation.
+
+  chain: bottom-up [(label, class or 'cb' (Dict with callback), own)], `own`
+  being the receiver's path relative to the topmost object of the chain.
+  changes: {location relative to the topmost object: (old, new)}.
+  Returns ([(label, {location relative to receiver: (old, new)})], [labels of
+  receivers overriding _on_bound]), both bottom-up.
+  """
+  c, b = [], []
+  for label, cls, own in chain:
+    if own.startswith('^'):    # receiver is ABOVE the topmost object
+      mine = {own[1:] + k: v for k, v in changes.items()}
+    else:
+      mine = {k[len(own):]: v for k, v in changes.items() if k.startswith(own)}
+    if not mine:
+      continue
+    if cls == 'cb' or 'c' in HIER[cls][2]:
+      c.append((label, mine))
+    if cls != 'cb' and 'b' in HIER[cls][2]:
+      b.append(label)
+  return c, b
+
+
+def _hier_steps(steps):
+  """[(setup_line, [(op_src, shape, main_class, want_c, want_b)])] per step.
+
+  steps: ('in-dict', K) | ('standalone', K) | ('nested', A, B).
+  """
+  out = []
+  for i, st in enumerate(steps):
+    shape = st[0]
+    if shape == 'in-dict':
+      k = st[1]
+      t, r = f't{i}', f'r{i}'
+      chain = [(t, k, ''), (r, 'cb', '^t.')]
+      setup = f"{t}=mk({k},'{t}');{r}=inroot({t},'{r}')"
+      ops = [
+          (f"{t}.rebind({{'x':5,'c.v':7}})", {'x': (1, 5), 'c.v': (1, 7)}),
+          (f'{t}.c.v=8', {'c.v': (7, 8)}),
+          (f"{r}.rebind({{'t.x':9}})", {'x': (5, 9)}),
+          (f'with pg.notify_on_change(False):{t}.rebind(x=11)', {}),
+          (f'{t}.rebind(x=12,skip_notification=True)', {}),
+          (f'{t}.c.rebind(v=13)', {'c.v': (8, 13)}),
+      ]
+    elif shape == 'standalone':
+      k = st[1]
+      t = f's{i}'
+      chain = [(t, k, '')]
+      setup = f"{t}=mk({k},'{t}')"
+      ops = [(f'{t}.rebind(x=2)', {'x': (1, 2)}),
+             (f'{t}.c.v=3', {'c.v': (1, 3)})]
+    else:
+      k, inner = st[1], st[2]
+      ta, tb = f'a{i}', f'b{i}'
+      chain = [(tb, inner, 'o.'), (ta, k, '')]
+      setup = f"{tb}=mk({inner},'{tb}');{ta}=mk({k},'{ta}',o={tb})"
+      ops = [(f'{ta}.o.rebind(x=3)', {'o.x': (1, 3)}),
+             (f"{ta}.rebind({{'o.c.v':4,'x':6}})",
+              {'o.c.v': (1, 4), 'x': (1, 6)}),
+             (f'{ta}.rebind(x=7)', {'x': (6, 7)})]
+    out.append((setup, [(src, shape, k) + _hier_events(chain, ch)
+                        for src, ch in ops]))
+  return out
+
+
+_HIER_MOD = 'c09_hier_scratch'
+
+
+def _hier_run(rec, tag, steps):
+  """Fresh class hierarchy, then the steps; every call judged on its own."""
+  import sys    # pylint: disable=g-import-not-at-top
+  import types  # pylint: disable=g-import-not-at-top
+  sys.modules.setdefault(_HIER_MOD, types.ModuleType(_HIER_MOD))
+  ns = {'__name__': _HIER_MOD}
+  exec(compile(_hier_src(), '<c09-hier>', 'exec'), ns)  # pylint: disable=exec-used
+  log = ns['LOG']
+  label_cls = {}
+  for i, st in enumerate(steps):
+    if st[0] == 'in-dict':
+      label_cls[f't{i}'], label_cls[f'r{i}'] = st[1], 'cb'
+    elif st[0] == 'standalone':
+      label_cls[f's{i}'] = st[1]
+    else:
+      label_cls[f'a{i}'], label_cls[f'b{i}'] = st[1], st[2]
+  done = []
+  used = [c for st in steps for c in st[1:]]
+  key0 = (tag, tuple('/'.join(st) for st in steps))
+  for setup, ops in _hier_steps(steps):
+    exec(setup, ns)  # pylint: disable=exec-used
+    done.append(setup)
+    for src, shape, main, want_c, want_b in ops:
+      del log[:]
+      try:
+        exec(src, ns)  # pylint: disable=exec-used
+      except Exception:  # pylint: disable=broad-except
+        rec.case('op-raised(not-judged)', key0 + (src,), True, nontrivial=False)
+        del log[:]
+        continue
+      got = list(log)
+      del log[:]
+      got_c = [(e[1], e[2]) for e in got if e[0] == 'c']
+      got_b = [e[1] for e in got if e[0] == 'b']
+      body = '\n'.join(done + [
+          'del LOG[:]', src, "c=[e[1:] for e in LOG if e[0]=='c'];"
+          "b=[e[1] for e in LOG if e[0]=='b']",
+          f'assert c=={want_c!r} and b=={want_b!r},(c,b)'])
+      w = _hier_src(used) + body
+      if len(w) > 1190:
+        w = ('from bounded.c09_notify import hier_replay\n'
+             f'hier_replay({steps!r}, {src!r})')
+      silent = 'notify_on_change(False)' in src or 'skip_notif' in src
+      sfx = '|notifications-off' if silent else ''
+      main_role = HIER[main][3]
+      labels = sorted({lb for lb, _ in want_c} | set(want_b) |
+                      {lb for lb, _ in got_c} | set(got_b))
+      if not labels:
+        rec.case(f'receiver-class/{main_role}|events{sfx}',
+                 key0 + (src,), True)
+      for lb in labels:
+        cls = label_cls.get(lb)
+        role = ('dict-callback-above-object' if cls == 'cb' else
+                HIER[cls][3] if cls else 'object-outside-the-tree')
+        mine_c = [u for x, u in got_c if x == lb]
+        want_mine = [u for x, u in want_c if x == lb]
+        mine_b = got_b.count(lb)
+        ok = mine_c == want_mine and mine_b == want_b.count(lb)
+        rec.case(f'receiver-class/{role}|events{sfx}', key0 + (src, lb),
+                 ok, f'{tag} {steps}: after {done}, `{src}`: receiver {lb} '
+                 f'({cls}) got change events {mine_c} and {mine_b} _on_bound '
+                 f'calls, want {want_mine} and {want_b.count(lb)}', w)
+      # Children before parents (only judged when the right set was delivered).
+      order_ok = True
+      if sorted(x for x, _ in got_c) == sorted(x for x, _ in want_c):
+        order_ok &= [x for x, _ in got_c] == [x for x, _ in want_c]
+      if sorted(got_b) == sorted(want_b):
+        order_ok &= got_b == want_b
+      rec.case(f'receiver-class/{main_role}|events-order',
+               key0 + (src,), order_ok,
+               f'{tag} {steps}: `{src}`: delivery order {got_c} / {got_b}, '
+               f'want children first: {want_c} / {want_b}', w)
+      done.append(src)
+
+
+def hier_replay(steps, src):
+  """Witness helper for scenarios too long to inline; raises on failure."""
+  bad = []
+
+  class _Rec(Recorder):
+
+    def case(self, case_id, key, ok, message='', witness='', nontrivial=True):
+      if not ok and src in key:
+        bad.append(f'{case_id}: {message}')
+      return ok
+  _hier_run(_Rec('C09', 'replay', 'replay'), 'replay',
+            [tuple(st) for st in steps])
+  assert not bad, bad[0]
+
+
+def drv_receiver_classes(tier, seed):
+  rec = Recorder(
+      'C09', 'events delivered to receivers of related classes (override of '
+      '_on_change / _on_bound in a subclass of a plain class, inherited '
+      'override, mixin, functor subclass) in every order of first notification',
+      scope='9 classes in one hierarchy, created afresh per scenario; quick: '
+      'all ordered pairs (X notified first, then Y) + all (outer, inner) class '
+      'pairs nested in one tree + 12 seeded random permutations of all classes '
+      '(standalone or below a Dict with callback) followed by 4 repeats in '
+      'the other position and 4 nested pairs; thorough: + all ordered triples '
+      '+ 150 permutations; per object: batched rebind, write through the '
+      'attribute dict, rebind from the root, notifications off / skipped')
+  r = rng(seed, 'c09-hier')
+  cl = HIER_CLASSES
+  for x in cl:
+    for y in cl:
+      if x != y:
+        _hier_run(rec, 'pair', [('in-dict', x), ('in-dict', y)])
+  for a in cl:
+    for b in cl:
+      _hier_run(rec, 'nested', [('nested', a, b)])
+  if tier != 'quick':
+    for t3 in itertools.permutations(cl, 3):
+      _hier_run(rec, 'triple', [('in-dict', k) for k in t3])
+  for _ in range(12 if tier == 'quick' else 150):
+    order = r.sample(cl, len(cl))
+    steps = [(r.choice(['in-dict', 'standalone']), k) for k in order]
+    steps += [(('standalone', 'in-dict')[s[0] == 'standalone'], s[1])
+              for s in r.sample(steps, 4)]
+    steps += [('nested', r.choice(cl), r.choice(cl)) for _ in range(4)]
+    _hier_run(rec, 'perm', steps)
   return rec.result()
 
 
@@ -1059,7 +1380,7 @@ def drv_misc(tier, seed):
   return rec.result()
 
 
-DRIVERS = [drv_single_ops, drv_histories, drv_misc]
+DRIVERS = [drv_single_ops, drv_histories, drv_receiver_classes, drv_misc]
 
 
 def replay(rec):
